@@ -37,15 +37,47 @@ RULE = ('(var) seeded names of the VARIABLE shape ^(?![A-Za-z]+[0-9])(?:[A-Za-z]
         'binary operators, unary minus, every argument index of builtin and custom calls (IFERROR, ISERROR, IF, SUM ...), array '
         'elements, row pairs, depth <= 4 quick / 7 thorough, anything after the hole (error literals, 1/0, other unknown calls); '
         'reachability of the hole is confirmed by running the same formula with a recording function in the hole. '
-        'Non-trivial = the name was resolved / the hole was reached.')
+        '(sess) seeded SESSIONS of 3..15 set_variable / set_function / parse steps on one or two LONG-LIVED parsers over small name pools '
+        '(2..4 function names drawn from 19 documented built-ins, special and random names; 1..3 variable names incl. TRUE FALSE NULL), '
+        'so that names change role: a built-in is called and only then shadowed, an unknown function / variable is referenced and only '
+        'then registered, variables and functions are re-bound to values of another type / to another callable, two parsers are used '
+        'alternately with registrations on one of them only; plus directed step patterns for each of these and sessions with RE-ENTRANT '
+        "functions (lambda t: p.parse(t)['result'] on the same parser) used inside larger formulas (argument positions, operator "
+        'operands, followed by registered and by unbound names; inner formulas that succeed, reference variables, abort on an unbound '
+        'name with tokens left over, or are no formula). One case per parse step; oracle after every step, for the bindings registered '
+        'AT THAT MOMENT (computed from the session text): an unbound name that is evaluated first -> exactly #NAME?; otherwise one recorded '
+        'call per custom call site in evaluation order with the evaluated arguments, inner evaluations judged the same way, value = what '
+        'the outermost callable returned / the variable\'s value; a formula whose names are all bound or documented is not #NAME?; nothing '
+        'registered on the other parser is called. (reunk) the (unk) contexts in which number / variable leaves are rewritten to '
+        're-entrant calls EV("5") returning the same value, at least one of them evaluated before the hole, optionally preceded by a '
+        're-entrant call whose inner formula fails: still exactly #NAME?, the re-entrant functions called in call-site order. '
+        'Non-trivial = the name was resolved / the hole was reached / the statement had an opinion on the step.')
 TRUSTED = ['the reading of SUPPORTED_FORMULAS.md: the bullets between the heading "Supported Formulas" and the next heading',
            'values that have no wire form (tuple, dict, set, object, function, nan ...) are judged by the oracle only; the model '
-           'carries them as opaque `other` values']
+           'carries them as opaque `other` values',
+           '(sess) the bindings of the moment are computed by the harness from the session text; the recording wrappers of the custom '
+           'functions (a re-entrant one opens a nested call list for the inner evaluation); +, -, * and unary minus of Python ints are '
+           'ints (the only operator results the session oracle computes; any other operator result = no opinion)',
+           '(sess) the model is stateless: each parse step is ONE eval request with the environment of that moment; a re-entrant function '
+           'is given to the model as (const v) with v read off the session text (literal, bound / unbound variable, custom call, int '
+           'arithmetic, abort -> blank) - steps where v is not plain, where one function would need two constants, or whose root operator '
+           'has non-integer operands are judged by the oracle only',
+           '(reunk) reachability of the hole is decided on the formula with the re-entrant calls written back as the literals they '
+           'return (so the probe does not depend on re-entrancy); EV("5") returns what the literal 5 evaluates to']
 ASSUMPTIONS = ['names are compared exactly (case-sensitive): the never-set variable `true` is not `TRUE`; calls of lower-case '
                'spellings of registered function names (sum(1)) are compared with the model but not judged by the oracle',
                'a value evaluated before the unknown call may be an error VALUE (1/0, NA()); only a RAISED error (an error '
                'literal, an earlier unknown name) may pre-empt #NAME?, and none is generated before the hole',
-               'a custom function that raises is outside the statement (C08 covers it)']
+               'a custom function that raises is outside the statement (C08 covers it)',
+               '"after a variable is set / a function is registered" is read as: until it is set / registered again on the SAME parser; '
+               'bindings are per parser instance, a later set_function takes precedence over a built-in even if the built-in was '
+               'already called on that parser, and an earlier #NAME? for a name does not outlast its registration',
+               'a custom function may evaluate formula text on the parser that is calling it; the statement applies to the inner and to '
+               'the outer formula alike (the tokens after the call site belong to the outer formula)',
+               'in a formula that aborts with #NAME? the statement does not say which call sites after the unbound name are called: '
+               'only the result is judged there (reunk: the recorded re-entrant calls must be a prefix of the call sites in order)',
+               'the value of a documented built-in is not this property\'s subject: the session oracle treats it as unknown (it matches '
+               'any argument) and only demands that the formula is not #NAME? (unless a #NAME? error VALUE is bound at that moment)']
 EXHAUSTIVE = {'quick': False, 'thorough': False}
 
 VAR_RE = re.compile(r'(?![A-Za-z]+[0-9])(?:[A-Za-z][A-Za-z_0-9]+|[A-Za-z_]+)')
@@ -201,9 +233,10 @@ SHADOWED = ['SUM', 'IF', 'PI', 'IFERROR', 'TRUE', 'NA', 'CEILING.MATH']
 # ------------------------------------------------------------------ trees (JSON lists)
 #  ['n', digits] | ['d', a, b] | ['s', text] | ['v', name] | 'blank' | ['neg', t] | ['bin', op, l, r]
 #  ['call', name, sep, [slot...]] | ['rows', name, [slot...], [slot...]] | ['arr', sep, [elem...]] | ['HOLE'] | ['raw', text]
+#  ['re', name, inner]   = name("<text of inner>") where name is bound to a function that parses its argument on the SAME parser
 
 def atomic(t):
-    return t == 'blank' or t[0] in ('n', 'd', 's', 'v', 'call', 'rows', 'arr', 'HOLE', 'raw')
+    return t == 'blank' or t[0] in ('n', 'd', 's', 'v', 'call', 'rows', 'arr', 'HOLE', 'raw', 're')
 
 
 def render(t, hole=None):
@@ -222,6 +255,9 @@ def render(t, hole=None):
         return t[1]
     if k == 'HOLE':
         return hole
+    if k == 're':
+        # a call of a RE-ENTRANT custom function: its one argument is the text of the inner formula
+        return t[1] + '("' + render(t[2], hole) + '")'
     if k == 'neg':
         s = render(t[1], hole)
         return '-' + (s if atomic(t[1]) else '(' + s + ')')
@@ -425,6 +461,278 @@ def systematic_ctxs():
     return out
 
 
+# ------------------------------------------------------------------ (sess) multi-step sessions on long-lived parsers
+#  case = {'kind': 'sess', 'np': 1|2, 'steps': [step...], 'at': index of the judged parse step}
+#  step = ['var', parser, name, valuespec] | ['fn', parser, name, behaviour] | ['parse', parser, tree]
+#  behaviour = ['uniq'] | ['args'] | ['first'] | ['const', valuespec] | ['reent']   (reent: lambda t: p.parse(t)['result'])
+
+BUILTIN_POOL = ['SUM', 'MAX', 'MIN', 'IF', 'PI', 'ABS', 'IFERROR', 'NA', 'COUNT', 'CONCATENATE', 'AND', 'OR', 'NOT', 'ISERROR',
+                'CEILING.MATH', 'TRUE', 'AVERAGE', 'CHOOSE', 'ROUND']
+SESS_VARS = ['rate', 'x', 'X', 'total_', 'SUM', 'PI', 'a_1', 'Abc', 'NOSUCH', '_', 'T', 'TRUE', 'FALSE', 'NULL', 'true', 'e_na']
+PREDEF = {'TRUE': True, 'FALSE': False, 'NULL': None}
+_DOC = []
+
+
+def doc_set():
+    if not _DOC:
+        _DOC.append(frozenset(documented_names()))
+    return _DOC[0]
+
+
+def new_env():
+    return {'vars': {}, 'fns': {}}
+
+
+def env_at(steps, at, np):
+    """the bindings registered on each parser just before step `at` (computed from the session text, not from the implementation)"""
+    envs = [new_env() for _ in range(np)]
+    for st in steps[:at]:
+        if st[0] == 'var':
+            envs[st[1]]['vars'][st[2]] = st[3]
+        elif st[0] == 'fn':
+            envs[st[1]]['fns'][st[2]] = st[3]
+    return envs
+
+
+def gen_sval(rng):
+    if rng.random() < 0.45:
+        return ['int', str(rng.choice([0, 1, 4, 7, -3, 42, rng.randrange(-500, 500)]))]
+    return gen_value(rng, 1)
+
+
+def gen_beh(rng, reent=0.2):
+    r = rng.random()
+    if r < reent:
+        return ['reent']
+    r = rng.random()
+    return ['uniq'] if r < 0.25 else ['args'] if r < 0.45 else ['first'] if r < 0.55 else ['const', gen_sval(rng)]
+
+
+def gen_inner(rng, fpool, vpool, env):
+    """the formula a re-entrant function is asked to evaluate: no text literals (it stands between quotes), no re-entrant call;
+    it may succeed, reference unset variables / unregistered functions (then it is #NAME? and the function returns a blank),
+    or be no formula at all"""
+    plain = [f for f in fpool if env['fns'].get(f) != ['reent']]
+    num = lambda: ['n', str(rng.randrange(0, 100))]
+    var = lambda: ['v', rng.choice(vpool)] if vpool else num()
+    r = rng.random()
+    if r < 0.2:
+        return num()
+    if r < 0.4:
+        return var()
+    if r < 0.5:
+        return ['bin', rng.choice(['+', '-', '*']), num(), num()]
+    if r < 0.62:
+        return ['bin', rng.choice(['+', '*', '&', '=']), var(), num()]          # "zz+1": tokens are left over when zz is unknown
+    if r < 0.9 and plain:
+        n = rng.choice([0, 1, 2, 3])
+        t = ['call', rng.choice(plain), rng.choice(SEPS), [rng.choice([num, var])() for _ in range(n)]]
+        return t if rng.random() < 0.7 else ['bin', rng.choice(['+', '-']), t, num()]
+    if r < 0.95:
+        return ['raw', rng.choice(['#REF!', '1+', ')', '#N/A'])]
+    return ['d', str(rng.randrange(0, 50)), rng.choice(['5', '25'])]
+
+
+def gen_stree(rng, depth, fpool, vpool, env, rootvar=0.12):
+    """a formula over the session's name pools; what each name means is decided by the bindings at the moment of the parse"""
+    def arg(d):
+        r = rng.random()
+        if d > 0 and r < 0.4:
+            return call(d - 1)
+        if r < 0.55 and vpool:
+            return ['v', rng.choice(vpool)]
+        if r < 0.62:
+            return ['arr', rng.choice(SEPS), [gen_lit(rng) for _ in range(rng.randrange(1, 4))]]
+        if r < 0.67 and d > 0:
+            return ['arr', ',', [call(d - 1), gen_lit(rng)]]
+        return gen_lit(rng)
+
+    def call(d):
+        name = rng.choice(fpool)
+        if env['fns'].get(name) == ['reent']:
+            return ['re', name, gen_inner(rng, fpool, vpool, env)]
+        if rng.random() < 0.06:
+            return ['rows', name, [arg(d) for _ in range(rng.randrange(2, 4))], [arg(d) for _ in range(rng.randrange(2, 4))]]
+        n = rng.choice([0, 1, 1, 2, 2, 3])
+        return ['call', name, rng.choice(SEPS), gen_slots(rng, n, lambda: arg(d))]
+    r = rng.random()
+    if r < rootvar and vpool:
+        return ['v', rng.choice(vpool)]
+    if r < rootvar + 0.25:
+        # further tokens after a call: an operator and a second operand
+        right = call(depth) if rng.random() < 0.5 else ['v', rng.choice(vpool)] if vpool and rng.random() < 0.4 else ['n', str(rng.randrange(0, 50))]
+        return ['bin', rng.choice(['+', '-', '*', '+', '&', '=', '<']), call(depth), right]
+    if r < rootvar + 0.28:
+        return ['neg', call(depth)]
+    return call(depth)
+
+
+def gen_session(rng, thorough, pattern=None, np=None, fpool=None, vpool=None, reent=0.2):
+    """a seeded sequence of set_variable / set_function / parse steps on one or two long-lived parsers.  The name pools are
+    small, so names change role over time: a built-in is called and later shadowed, an unknown name is referenced and later
+    registered, a variable or function is re-bound, and with two parsers the same names mean different things on each."""
+    hxm = hx()
+    if np is None:
+        np = 2 if rng.random() < 0.25 else 1
+    if fpool is None:
+        fpool = []
+        for _ in range(rng.randrange(2, 5)):
+            r = rng.random()
+            fpool.append(rng.choice(BUILTIN_POOL) if r < 0.4 else rng.choice(SPECIAL_FNS) if r < 0.6 else gen_fname(rng))
+        fpool = sorted(set(fpool))
+    if vpool is None:
+        vpool = sorted(set(rng.choice(SESS_VARS) if rng.random() < 0.5 else gen_varname(rng) for _ in range(rng.randrange(1, 4))))
+    vpool = [v for v in vpool if VAR_RE.fullmatch(v)]
+    if pattern is None:
+        n = rng.randrange(4, 15 if thorough else 11)
+        pattern = ''
+        for j in range(n):
+            r = rng.random()
+            pattern += 'P' if (j == 0 and r < 0.7) or r < 0.5 else 'V' if r < 0.68 and vpool else 'F'
+    envs = [new_env() for _ in range(np)]
+    steps = []
+    for ch in pattern:
+        pi = rng.randrange(np)
+        if ch == 'P':
+            t = gen_stree(rng, rng.randrange(0, 3), fpool, vpool, envs[pi], rootvar=0.45 if 'V' in pattern and 'F' not in pattern else 0.12)
+            steps.append(['parse', pi, t])
+        elif ch == 'V':
+            name = rng.choice(vpool)
+            spec = gen_sval(rng)
+            envs[pi]['vars'][name] = spec
+            steps.append(['var', pi, name, spec])
+        else:
+            name = rng.choice(fpool)
+            beh = gen_beh(rng, reent)
+            envs[pi]['fns'][name] = beh
+            steps.append(['fn', pi, name, beh])
+    if steps[-1][0] != 'parse':
+        pi = steps[-1][1]
+        steps.append(['parse', pi, gen_stree(rng, rng.randrange(0, 3), fpool, vpool, envs[pi])])
+    return {'np': np, 'steps': steps}
+
+
+def session_cases(sess):
+    return [{'kind': 'sess', 'np': sess['np'], 'steps': sess['steps'], 'at': i}
+            for i, st in enumerate(sess['steps']) if st[0] == 'parse']
+
+
+def _c(name, *args):
+    return ['call', name, ',', [['n', str(a)] if isinstance(a, int) else a for a in args]]
+
+
+# minimal witnesses of role changes and re-entrancy (regression cases; the generators reach these classes on their own)
+SESSION_CORPUS = [
+    # a built-in is called, then shadowed, then called again; then re-registered with another callable
+    {'np': 1, 'steps': [['parse', 0, _c('SUM', 1, 2)], ['fn', 0, 'SUM', ['const', ['str', 'custom']]], ['parse', 0, _c('SUM', 1, 2)],
+                        ['fn', 0, 'SUM', ['args']], ['parse', 0, _c('SUM', 1, 2)]]},
+    # an unknown function / variable is referenced, then registered
+    {'np': 1, 'steps': [['parse', 0, _c('LATER', 1)], ['fn', 0, 'LATER', ['first']], ['parse', 0, _c('LATER', 1)],
+                        ['parse', 0, ['v', 'later_v']], ['var', 0, 'later_v', ['int', '3']], ['parse', 0, ['v', 'later_v']],
+                        ['var', 0, 'later_v', ['str', 'three']], ['parse', 0, ['v', 'later_v']], ['parse', 0, _c('LATER', ['v', 'later_v'])]]},
+    # two parsers alternately
+    {'np': 2, 'steps': [['parse', 0, _c('PI')], ['parse', 1, _c('PI')], ['fn', 0, 'PI', ['const', ['int', '3']]], ['parse', 1, _c('PI')],
+                        ['parse', 0, _c('PI')], ['var', 1, 'rate', ['int', '4']], ['parse', 0, ['v', 'rate']], ['parse', 1, ['v', 'rate']],
+                        ['fn', 1, 'ONLYB', ['uniq']], ['parse', 0, _c('ONLYB')], ['parse', 1, _c('ONLYB')]]},
+    # a function that evaluates formula text on the same parser, with further tokens after the call
+    {'np': 1, 'steps': [['fn', 0, 'EVALUATE', ['reent']], ['var', 0, 'rate', ['int', '4']],
+                        ['parse', 0, ['re', 'EVALUATE', ['bin', '*', ['v', 'rate'], ['n', '2']]]],
+                        ['parse', 0, ['bin', '+', ['re', 'EVALUATE', ['v', 'rate']], ['n', '1']]],
+                        ['parse', 0, ['bin', '+', _c('NOPE'), ['re', 'EVALUATE', ['n', '1']]]],
+                        ['parse', 0, ['bin', '+', ['re', 'EVALUATE', ['n', '1']], _c('NOPE')]],
+                        ['parse', 0, _c('SUM', ['re', 'EVALUATE', ['v', 'rate']], _c('NOPE', 2))],
+                        ['parse', 0, ['bin', '+', ['re', 'EVALUATE', ['bin', '+', ['v', 'zz'], ['n', '1']]], _c('NOPE')]],
+                        ['fn', 0, 'G', ['args']],
+                        ['parse', 0, _c('G', ['re', 'EVALUATE', ['v', 'rate']], _c('G', 2), ['v', 'rate'])],
+                        ['parse', 0, _c('G', ['re', 'EVALUATE', _c('NOPE', 1)], ['v', 'zz'])]]},
+]
+
+
+# ------------------------------------------------------------------ (reunk) an unknown name after re-entrant calls, in context
+
+RE_NAMES = ['EV', 'EVB', 'EVC']
+RE_FAILING = [['bin', '+', ['v', 'nosuch_inner'], ['n', '1']], ['bin', '*', ['call', 'NOPEIN', ',', [['n', '2']]], ['n', '3']],
+              ['v', 'nosuch_inner'], ['call', 'NOPEIN', ',', []], ['raw', '#REF!'], ['raw', '1+'],
+              ['call', 'SUM', ',', [['n', '1'], ['v', 'nosuch_inner'], ['n', '2']]]]
+
+
+def leaf_paths(t, path=()):
+    """paths of the number literals and of the numeric variables va / vb"""
+    if t == 'blank' or not isinstance(t, list):
+        return []
+    k = t[0]
+    if k == 'n' or (k == 'v' and t[1] in ('va', 'vb')):
+        return [path]
+    out = []
+    if k in ('neg',):
+        out += leaf_paths(t[1], path + (1,))
+    elif k == 'bin':
+        out += leaf_paths(t[2], path + (2,)) + leaf_paths(t[3], path + (3,))
+    elif k in ('call', 'arr'):
+        idx = 3 if k == 'call' else 2
+        for i, x in enumerate(t[idx]):
+            out += leaf_paths(x, path + (idx, i))
+    elif k == 'rows':
+        for idx in (2, 3):
+            for i, x in enumerate(t[idx]):
+                out += leaf_paths(x, path + (idx, i))
+    return out
+
+
+def subst(t, path, fn):
+    if not path:
+        return fn(t)
+    t = list(t)
+    t[path[0]] = subst(t[path[0]], path[1:], fn)
+    return t
+
+
+def make_reunk(rng, ctx, fill):
+    """replace up to three numeric leaves `5` / `va` of the context by re-entrant calls EV("5") / EV("va") that return the very
+    same value (so whatever was safe stays safe), each call site under its own function name; at least one such call is evaluated
+    before the hole; sometimes put a re-entrant call whose inner formula FAILS in front of everything"""
+    paths = leaf_paths(ctx)
+    plain = ctx
+    if paths:
+        chosen = rng.sample(paths, min(len(paths), rng.randrange(1, 3)))
+        for name, pth in zip(RE_NAMES, chosen):
+            ctx = subst(ctx, pth, lambda leaf, name=name: ['re', name, leaf])
+    sites = []
+    re_sites(ctx, sites)
+    if None not in sites or sites.index(None) == 0:
+        # no re-entrant call is evaluated before the hole yet: put one in front
+        k = str(rng.randrange(1, 9))
+        name = [n for n in RE_NAMES if n not in [s[0] for s in sites if s]][0]
+        ctx = ['bin', rng.choice(['+', '-', '*', '&', '=']), ['re', name, ['n', k]], ctx]
+        plain = ['bin', ctx[1], ['n', k], plain]
+    if rng.random() < 0.35:
+        ctx = ['call', 'G', ',', [['re', 'EVF', rng.choice(RE_FAILING)], ctx]]
+        plain = ['call', 'G', ',', [['v', 'NULL'], plain]]
+    return {'kind': 'reunk', 'ctx': ctx, 'plain': plain, 'fill': fill}
+
+
+def re_sites(t, out):
+    """the re-entrant call sites in evaluation (post-) order; the hole is marked by None"""
+    if t == 'blank' or not isinstance(t, list):
+        return
+    k = t[0]
+    if k == 're':
+        out.append((t[1], render(t[2])))
+    elif k == 'HOLE':
+        out.append(None)
+    elif k == 'neg':
+        re_sites(t[1], out)
+    elif k == 'bin':
+        re_sites(t[2], out)
+        re_sites(t[3], out)
+    elif k in ('call', 'arr'):
+        for x in t[3 if k == 'call' else 2]:
+            re_sites(x, out)
+    elif k == 'rows':
+        for x in t[2] + t[3]:
+            re_sites(x, out)
+
+
 # ------------------------------------------------------------------ cases
 
 def cases(rng, ctx):
@@ -511,6 +819,58 @@ def cases(rng, ctx):
             n = rng.choice([0, 1, 1, 2, 3])
             fl = ['call', name, rng.choice(SEPS), gen_slots(rng, n, lambda: gen_safe(rng, 1))]
         out.append({'kind': 'unk', 'ctx': gen_ctx(rng, rng.randrange(0, maxd + 1)), 'fill': fl})
+    # (sess) multi-step sessions: names change role over time on long-lived parsers
+    smult = (12 if thorough else 1) * ctx['scale']
+    sessions = [dict(s) for s in SESSION_CORPUS]
+    for i in range(150 * smult):
+        sessions.append(gen_session(rng, thorough))
+    for i in range(30 * smult):
+        # a built-in is called, shadowed, called, re-registered, called
+        sessions.append(gen_session(rng, thorough, pattern=rng.choice(['PFPFP', 'PFP', 'PPFPFPP']), np=1,
+                                    fpool=[rng.choice(BUILTIN_POOL)] + ([rng.choice(SPECIAL_FNS)] if rng.random() < 0.4 else []), reent=0.1))
+    for i in range(20 * smult):
+        # an unknown function is referenced, registered, re-registered
+        sessions.append(gen_session(rng, thorough, pattern=rng.choice(['PFPFP', 'PFP', 'PVFPFVP']), np=1,
+                                    fpool=[gen_fname(rng)] + ([rng.choice(SPECIAL_FNS)] if rng.random() < 0.4 else []), reent=0.1))
+    for i in range(20 * smult):
+        # a variable is referenced, set, read, set to something else, read
+        sessions.append(gen_session(rng, thorough, pattern=rng.choice(['PVPVP', 'PVPVPVP', 'VPVP']), np=1, fpool=['F'],
+                                    vpool=[rng.choice(SESS_VARS) if rng.random() < 0.5 else gen_varname(rng)]))
+    for i in range(30 * smult):
+        # two parsers alternately: the same names, registered on one of them only
+        n = rng.randrange(5, 12)
+        sessions.append(gen_session(rng, thorough, np=2, pattern='P' + ''.join(rng.choice('PPFV') for _ in range(n)),
+                                    fpool=sorted({rng.choice(BUILTIN_POOL), rng.choice(SPECIAL_FNS)}), vpool=[rng.choice(SESS_VARS[:10])]))
+    for i in range(40 * smult):
+        # re-entrant functions: registered early, then used inside larger formulas
+        fp = sorted({'EVALUATE', rng.choice(BUILTIN_POOL + SPECIAL_FNS), gen_fname(rng)})
+        s = gen_session(rng, thorough, np=1, pattern=''.join(rng.choice('PPPFV') for _ in range(rng.randrange(3, 9))), fpool=fp, reent=0.15)
+        s['steps'].insert(0, ['fn', 0, 'EVALUATE', ['reent']])
+        # the generator did not know about this binding: re-generate the trees with it
+        envs = [new_env()]
+        for st in s['steps']:
+            if st[0] == 'var':
+                envs[0]['vars'][st[2]] = st[3]
+            elif st[0] == 'fn':
+                envs[0]['fns'][st[2]] = st[3]
+            else:
+                st[2] = gen_stree(rng, rng.randrange(0, 3), fp, sorted(set(x[2] for x in s['steps'] if x[0] == 'var')) or ['rate'], envs[0])
+        sessions.append(s)
+    for s in sessions:
+        out += session_cases(s)
+
+    # (reunk) an unknown name in context, after / around calls of re-entrant functions
+    sysctx = systematic_ctxs()
+    for cx in (sysctx if thorough else rng.sample(sysctx, 40)):
+        out.append(make_reunk(rng, cx, rng.choice(fills)))
+    for i in range(250 * smult):
+        if rng.random() < 0.2:
+            fl = ['v', gen_varname(rng) + '_u']
+        else:
+            name = gen_fname(rng, avoid=('ID', 'G', 'REACHED', 'EV', 'EVB', 'EVC', 'EVF', 'NOPEIN'))
+            fl = ['call', name, rng.choice(SEPS), gen_slots(rng, rng.choice([0, 1, 1, 2]), lambda: gen_safe(rng, 1))]
+        out.append(make_reunk(rng, gen_ctx(rng, rng.randrange(0, maxd + 1)), fl))
+
     # lower-case / mixed-case spellings of registered names: compared with the model only
     for n in ['sum', 'Sum', 'pi', 'If', 'iferror', 'true', 'True', 'null']:
         out.append({'kind': 'case', 'f': n + '(1)' if n.lower() not in ('true', 'null') else n})
@@ -531,12 +891,20 @@ def formula_of(c):
         return render(c['ctx'], render(c['fill']))
     if k == 'case':
         return c['f']
+    if k == 'sess':
+        return render(c['steps'][c['at']][2])
+    if k == 'reunk':
+        return render(c['ctx'], render(c['fill']))
     raise ValueError(k)
 
 
 def impl(c):
     hxm = hx()
     k = c['kind']
+    if k == 'sess':
+        return run_session(c)[c['at']]
+    if k == 'reunk':
+        return run_reunk(c)
     p = hxm.Parser()
     f = formula_of(c)
     if k == 'var':
@@ -612,6 +980,10 @@ def request(c):
     k = c['kind']
     f = formula_of(c)
     hx()
+    if k == 'sess':
+        return sess_request(c)
+    if k == 'reunk':
+        return reunk_request(c)
     if k in ('var', 'var-out'):
         env = fx.env_wire(variables={c['name']: mkval(c['v'])})
     elif k == 'unkvar':
@@ -644,6 +1016,8 @@ def agree(c, impl_ans, model_ans):
         return False
     if k in ('var', 'unkvar', 'predef'):
         return mev == [['var', enc_str(c['name'])]]
+    if k == 'sess':
+        return events_agree(mrec, mev, impl_ans['emitted'])
     if k == 'fn':
         # the model's function events are the implementation's callFunction events, builtins included
         fnev = [e for e in mev if e[0] == 'fn']
@@ -714,10 +1088,525 @@ def replay(t, vs, calls, pos):
     raise Mismatch('not replayable: %r' % (t,))
 
 
+# ------------------------------------------------------------------ (sess) running a session on the implementation
+
+class Recorder(object):
+    """custom functions of one session: every call is recorded in the list of the evaluation it belongs to
+    (a re-entrant function opens a nested list for the inner evaluation)"""
+
+    def __init__(self):
+        self.stack = [[]]
+        self.emitted = []
+        self.counter = [0]
+
+    def make(self, p, name, beh):
+        rec = self
+        const = mkval(beh[1]) if beh[0] == 'const' else None
+        if beh[0] == 'reent':
+            def fn(t):
+                sub = []
+                rec.stack.append(sub)
+                try:
+                    inner = p.parse(t)
+                finally:
+                    rec.stack.pop()
+                r = inner['result']
+                rec.stack[-1].append((name, (t,), r, inner, sub))
+                return r
+            return fn
+
+        def fn(*a):
+            if beh[0] == 'uniq':
+                rec.counter[0] += 1
+                r = Token(rec.counter[0])
+            elif beh[0] == 'args':
+                r = list(a)
+            elif beh[0] == 'first':
+                r = a[0] if a else None
+            else:
+                r = const
+            rec.stack[-1].append((name, a, r, None, None))
+            return r
+        return fn
+
+    def listen(self, p):
+        def on_call(name, args, setter):
+            if len(self.stack) == 1:          # events of the outer evaluation only
+                self.emitted.append((name, tuple(args)))
+        p.on('callFunction', on_call)
+
+    def begin(self):
+        self.stack = [[]]
+        self.emitted = []
+
+
+_SESSION_CACHE = [None, None]
+
+
+def run_session(c):
+    key = repr((c['np'], c['steps']))
+    if _SESSION_CACHE[0] == key:
+        return _SESSION_CACHE[1]
+    hxm = hx()
+    ps = [hxm.Parser() for _ in range(c['np'])]
+    recs = [Recorder() for _ in ps]
+    for p, r in zip(ps, recs):
+        r.listen(p)
+    vals = [dict() for _ in ps]
+    outs = []
+    for st in c['steps']:
+        pi = st[1]
+        if st[0] == 'var':
+            v = mkval(st[3])
+            vals[pi][st[2]] = v
+            ps[pi].set_variable(st[2], v)
+            outs.append(None)
+        elif st[0] == 'fn':
+            ps[pi].set_function(st[2], recs[pi].make(ps[pi], st[2], st[3]))
+            outs.append(None)
+        else:
+            for r in recs:
+                r.begin()
+            rec = ps[pi].parse(render(st[2]))
+            others = sum(len(r.stack[0]) for i, r in enumerate(recs) if i != pi)
+            outs.append({'rec': rec, 'calls': recs[pi].stack[0], 'emitted': recs[pi].emitted, 'vals': dict(vals[pi]),
+                         'elsewhere': others})
+    _SESSION_CACHE[0], _SESSION_CACHE[1] = key, outs
+    return outs
+
+
+def describe_session(c):
+    out = []
+    for st in c['steps'][:c['at'] + 1]:
+        who = 'p%d' % st[1] if c['np'] > 1 else 'p'
+        if st[0] == 'var':
+            out.append('%s.set_variable(%r, %r)' % (who, st[2], mkval(st[3])))
+        elif st[0] == 'fn':
+            b = st[3]
+            what = {'uniq': 'a function returning a fresh object', 'args': 'lambda *a: list(a)', 'first': 'lambda *a: a[0] if a else None',
+                    'reent': "lambda t: %s.parse(t)['result']" % who}.get(b[0]) or 'lambda *a: %r' % (mkval(b[1]),)
+            out.append('%s.set_function(%r, %s)' % (who, st[2], what))
+        else:
+            out.append('%s.parse(%r)' % (who, render(st[2])))
+    return '; '.join(out)
+
+
+# ------------------------------------------------------------------ (sess) the statement, for the bindings of the moment
+
+class Unknown(Exception):
+    """a variable that is not set / a function that is neither registered nor documented was referenced"""
+
+
+class NoOpinion(Exception):
+    pass
+
+
+class Opaque(object):
+    """the value of a built-in call: the statement only says that the name resolves"""
+
+    def __repr__(self):
+        return '<value of a built-in>'
+
+
+OPAQUE = Opaque()
+
+
+def has_opaque(v):
+    return v is OPAQUE or (isinstance(v, list) and any(has_opaque(x) for x in v))
+
+
+def eqw(a, b):
+    """eqv, where the value of a built-in call matches anything"""
+    if a is OPAQUE or b is OPAQUE:
+        return True
+    if a is b:
+        return True
+    if type(a) is not type(b):
+        return False
+    if isinstance(a, list):
+        return len(a) == len(b) and all(eqw(x, y) for x, y in zip(a, b))
+    if isinstance(a, (bool, int, float, str)):
+        return a == b
+    return False
+
+
+def rec_problem(rec, exp, name_values):
+    """exp = ('name', n) | ('val', v) | ('noop',): what is wrong with the parse record, or None"""
+    from hotxlfp.formulas import error
+    if exp[0] == 'noop':
+        return None
+    if exp[0] == 'name':
+        return None if rec == NAME_REC else 'gives %r although %r is not bound at that moment' % (rec, exp[1])
+    v = exp[1]
+    if v is OPAQUE:
+        # every name in the formula is bound or documented: it must not be a name error
+        if rec['error'] == '#NAME?' and not name_values:
+            return 'gives %r although every name in it is registered or a documented built-in' % (rec,)
+        return None
+    if v is None:
+        ok = rec == {'result': None, 'error': None}
+    elif isinstance(v, error.XLError):
+        ok = rec == {'result': None, 'error': str(v)}
+    else:
+        ok = rec['error'] is None and (rec['result'] is v or (isinstance(v, (bool, int, float, str, list)) and eqw(rec['result'], v)))
+    return None if ok else 'gives %r; the bindings of that moment make it %r' % (rec, v)
+
+
+def walk(t, env, vals, calls, pos, name_values):
+    """the value of the tree according to the statement, consuming the recorded custom calls in evaluation order"""
+    if t == 'blank':
+        return None
+    k = t[0]
+    if k == 'n':
+        return int(t[1])
+    if k == 'd':
+        return float(t[1] + '.' + t[2])
+    if k == 's':
+        return t[1]
+    if k == 'v':
+        if t[1] in env['vars']:
+            return vals[t[1]]
+        if t[1] in PREDEF:
+            return PREDEF[t[1]]
+        raise Unknown(t[1])
+    if k == 'arr':
+        return [walk(x, env, vals, calls, pos, name_values) for x in t[2]]
+    if k in ('call', 'rows', 're'):
+        name = t[1]
+        beh = env['fns'].get(name)
+        if k == 'call':
+            args = [walk(x, env, vals, calls, pos, name_values) for x in t[3]]
+        elif k == 'rows':
+            args = [[walk(x, env, vals, calls, pos, name_values) for x in t[2]], [walk(x, env, vals, calls, pos, name_values) for x in t[3]]]
+        else:
+            args = [render(t[2])]
+        if beh is None:
+            if name in doc_set():
+                return OPAQUE
+            raise Unknown(name + '()')
+        if (beh == ['reent']) != (k == 're'):
+            raise NoOpinion()
+        if pos[0] >= len(calls):
+            raise Mismatch('call site %s(...) #%d was not called (only %d calls recorded)' % (name, pos[0] + 1, len(calls)))
+        cname, a, r, inner, sub = calls[pos[0]]
+        pos[0] += 1
+        if cname != name:
+            raise Mismatch('call #%d went to %r, the call site in evaluation order is %r' % (pos[0], cname, name))
+        if len(a) != len(args) or not all(eqw(x, y) for x, y in zip(a, args)):
+            raise Mismatch('%s was called with %r, the evaluated arguments are %r' % (name, a, args))
+        if k == 're':
+            # the inner evaluation is a parse on the same parser at the same moment: the statement applies to it as well
+            ipos = [0]
+            try:
+                exp = ('val', walk(t[2], env, vals, sub, ipos, name_values))
+                if ipos[0] != len(sub):
+                    raise Mismatch('inner formula %r: %d calls recorded for %d call sites' % (args[0], len(sub), ipos[0]))
+            except Unknown as u:
+                exp = ('name', str(u))
+            except NoOpinion:
+                exp = ('noop',)
+            bad = rec_problem(inner, exp, name_values)
+            if bad:
+                raise Mismatch('inner formula %r %s' % (args[0], bad))
+        return r
+    if k == 'bin':
+        l = walk(t[2], env, vals, calls, pos, name_values)
+        r = walk(t[3], env, vals, calls, pos, name_values)
+        if type(l) is int and type(r) is int and t[1] in ('+', '-', '*'):
+            return l + r if t[1] == '+' else l - r if t[1] == '-' else l * r
+        raise NoOpinion()
+    if k == 'neg':
+        x = walk(t[1], env, vals, calls, pos, name_values)
+        if type(x) is int:
+            return -x
+        raise NoOpinion()
+    raise NoOpinion()
+
+
+def judge_sess(c, ans):
+    """-> (violation message | None, did the statement have an opinion)"""
+    st = c['steps'][c['at']]
+    env = env_at(c['steps'], c['at'], c['np'])[st[1]]
+    name_values = '#NAME?' in repr(env)
+    calls = ans['calls']
+    pos = [0]
+    if ans['elsewhere']:
+        return 'a custom function registered on the OTHER parser was called', True
+    try:
+        exp = ('val', walk(st[2], env, ans['vals'], calls, pos, name_values))
+        if pos[0] != len(calls):
+            return '%d custom calls recorded for %d call sites: %r' % (len(calls), pos[0], [(x[0], x[1]) for x in calls]), True
+    except Unknown as u:
+        exp = ('name', str(u))
+    except NoOpinion:
+        return None, False
+    except Mismatch as e:
+        return str(e), True
+    return rec_problem(ans['rec'], exp, name_values), True
+
+
+def tree_has(t, kind):
+    if t == 'blank' or not isinstance(t, list):
+        return False
+    if t and t[0] == kind:
+        return True
+    return any(tree_has(x, kind) for x in t if isinstance(x, list))
+
+
+def static_inner(t, env, strict=False):
+    """what a re-entrant function returns for the inner formula, when that is plain from the session text:
+    -> (True, python value) | (False, None); strict: only an int or an abort on an unbound name count as plain"""
+    from hotxlfp.formulas import error
+
+    class Fail(Exception):
+        pass
+
+    class Dunno(Exception):
+        pass
+
+    def ev(t):
+        if t == 'blank':
+            return None
+        k = t[0]
+        if k == 'n':
+            return int(t[1])
+        if k == 'd':
+            return float(t[1] + '.' + t[2])
+        if k == 'v':
+            if t[1] in env['vars']:
+                return mkval(env['vars'][t[1]])
+            if t[1] in PREDEF:
+                return PREDEF[t[1]]
+            raise Fail()
+        if k == 'raw':
+            raise Fail()
+        if k == 'call':
+            args = [ev(x) for x in t[3]]
+            beh = env['fns'].get(t[1])
+            if beh is None:
+                if t[1] in doc_set():
+                    raise Dunno()
+                raise Fail()
+            if beh[0] == 'const':
+                return mkval(beh[1])
+            if beh[0] == 'uniq':
+                return Token(0)
+            if beh[0] == 'args':
+                return args
+            if beh[0] == 'first':
+                return args[0] if args else None
+            raise Dunno()
+        if k == 'bin':
+            l, r = ev(t[2]), ev(t[3])
+            if type(l) is int and type(r) is int and t[1] in ('+', '-', '*'):
+                return l + r if t[1] == '+' else l - r if t[1] == '-' else l * r
+            raise Dunno()
+        raise Dunno()
+    try:
+        v = ev(t)
+    except Fail:
+        return True, None
+    except Dunno:
+        return False, None
+    if strict and type(v) is not int:
+        return False, None
+    if isinstance(v, error.XLError):
+        return True, None            # parse reports an error value under 'error'; its 'result' is blank
+    return True, v
+
+
+class NotTame(Exception):
+    pass
+
+
+def tame_value(v):
+    if isinstance(v, bool):
+        return False
+    if isinstance(v, int) or isinstance(v, str) or v is None:
+        return True
+    if isinstance(v, float):
+        return v == v and v not in (float('inf'), float('-inf'))
+    if isinstance(v, list):
+        return all(tame_value(x) for x in v)
+    return False
+
+
+def builtins_tame(t, env):
+    """does every built-in call site of the tree get plain arguments (finite numbers, text, blanks, lists of them)?  What the
+    built-ins make of logicals, nan, tuples, host objects ... is not this property's subject, and the model does not carry such
+    values: those steps are judged by the oracle only.  -> is the value of t plain; raises NotTame"""
+    if t == 'blank':
+        return True
+    k = t[0]
+    if k in ('n', 'd', 's', 'raw', 'bin', 'neg'):
+        for x in t[1:]:
+            if isinstance(x, list):
+                builtins_tame(x, env)
+        return True
+    if k == 'v':
+        return tame_value(mkval(env['vars'][t[1]])) if t[1] in env['vars'] else t[1] not in ('TRUE', 'FALSE')
+    if k == 'arr':
+        return all([builtins_tame(x, env) for x in t[2]])
+    if k == 're':
+        builtins_tame(t[2], env)
+        ok, v = static_inner(t[2], env)
+        return ok and tame_value(v)
+    if k in ('call', 'rows'):
+        args = [builtins_tame(x, env) for x in (t[3] if k == 'call' else t[2] + t[3])]
+        beh = env['fns'].get(t[1])
+        if beh is None:
+            if t[1] in doc_set() and not all(args):
+                raise NotTame()
+            return t[1] not in ('ISERROR', 'AND', 'OR', 'NOT', 'TRUE', 'IF')      # these may hand back a logical
+        if beh[0] == 'const':
+            return tame_value(mkval(beh[1]))
+        if beh[0] == 'args':
+            return all(args)
+        if beh[0] == 'first':
+            return args[0] if args else True
+        return False
+    return False
+
+
+def collect_re(t, out):
+    if t == 'blank' or not isinstance(t, list):
+        return
+    if t and t[0] == 're':
+        out.append(t)
+        return
+    for x in t:
+        if isinstance(x, list):
+            collect_re(x, out)
+
+
+def sess_request(c):
+    st = c['steps'][c['at']]
+    env = env_at(c['steps'], c['at'], c['np'])[st[1]]
+    sites = []
+    collect_re(st[2], sites)
+    reres = {}
+    for s in sites:
+        ok, v = static_inner(s[2], env)
+        if not ok:
+            return None
+        w = fx.to_wire(v)
+        if reres.setdefault(s[1], w) != w:
+            return None              # one host function cannot return two different constants
+    try:
+        builtins_tame(st[2], env)
+    except NotTame:
+        return None
+    if st[2][0] in ('bin', 'neg'):
+        # operators on lists / host objects are not this property's subject: compare with the model only when the operands are
+        # plainly integers or the formula plainly aborts on an unbound name before the operator is reached
+        for operand in st[2][2:] if st[2][0] == 'bin' else st[2][1:]:
+            ok, v = static_inner(operand if operand[0] != 're' else operand[2], env, strict=True)
+            if not ok:
+                return None
+    fns = {}
+    for n, beh in env['fns'].items():
+        if beh[0] == 'reent':
+            fns[n] = '(const %s)' % reres.get(n, 'nil')
+        else:
+            fns[n] = {'uniq': '(const (o Token))', 'args': '(args)', 'first': '(first)'}.get(beh[0]) or '(const %s)' % fx.to_wire(mkval(beh[1]))
+    return 'eval %s %s' % (enc_str(render(st[2])), fx.env_wire(variables={n: mkval(s) for n, s in env['vars'].items()}, fns=fns))
+
+
+def events_agree(mrec, mev, calls):
+    """the model's function events are the implementation's callFunction events, builtins included"""
+    fnev = [e for e in mev if e[0] == 'fn']
+    unmodelled = isinstance(mrec[1], list) and mrec[1][:2] == ['o', 'unmodelled-builtin']
+    if unmodelled:
+        calls = calls[:len(fnev)]          # the model stops at a builtin outside the modelled families
+    if len(fnev) != len(calls):
+        return False
+    for e, (name, a) in zip(fnev, calls):
+        if common.dec_str(e[1]) != name or len(e[2]) != len(a):
+            return False
+        for mm, vv in zip(e[2], a):
+            if fx.value_matches(mm, vv, rel=1e-12) is False:
+                return False
+    return True
+
+
+# ------------------------------------------------------------------ (reunk)
+
+def run_reunk(c):
+    hxm = hx()
+    # is the hole reached?  decided on the formula WITHOUT re-entrant calls (EV("5") written back as 5)
+    p = hxm.Parser()
+    env_fns(p)
+    for n, v in VARS_UNK.items():
+        p.set_variable(n, v)
+    reached = []
+    p.set_function('REACHED', lambda *a: reached.append(a) or 1)
+    args = render(c['fill'])
+    args = args[args.index('('):] if c['fill'][0] == 'call' else '()'
+    p.parse(render(c['plain'], 'REACHED' + args))
+    p2 = hxm.Parser()
+    env_fns(p2)
+    for n, v in VARS_UNK.items():
+        p2.set_variable(n, v)
+    calls = []
+
+    def mk(name):
+        def fn(t):
+            inner = p2.parse(t)
+            calls.append((name, t, inner))
+            return inner['result']
+        return fn
+    for n in RE_NAMES + ['EVF']:
+        p2.set_function(n, mk(n))
+    rec = p2.parse(render(c['ctx'], render(c['fill'])))
+    return {'rec': rec, 'reached': len(reached), 'calls': calls}
+
+
+def reunk_request(c):
+    sites = []
+    collect_re(c['ctx'], sites)
+    fns = {'ID': '(first)', 'G': '(args)'}
+    for s in sites:
+        leaf = s[2]
+        if s[1] == 'EVF':
+            v = None
+        elif leaf[0] == 'n':
+            v = int(leaf[1])
+        else:
+            v = VARS_UNK[leaf[1]]
+        fns[s[1]] = '(const %s)' % fx.to_wire(v)
+    return 'eval %s %s' % (enc_str(render(c['ctx'], render(c['fill']))), fx.env_wire(variables=VARS_UNK, fns=fns))
+
+
+def reunk_oracle(c, ans):
+    if ans['reached'] != 1:
+        return None
+    f = render(c['ctx'], render(c['fill']))
+    who = "with EV = EVB = EVC = EVF = lambda t: p.parse(t)['result'] on the same parser, "
+    if ans['rec'] != NAME_REC:
+        return '%s%r gives %r; the name in %r is neither registered nor custom' % (who, f, ans['rec'], render(c['fill']))
+    sites = []
+    re_sites(c['ctx'], sites)
+    sites = [s for s in sites if s is not None]
+    got = [(n, t) for n, t, _ in ans['calls']]
+    if got != sites[:len(got)]:
+        return '%s%r: the re-entrant functions were called as %r, the call sites in evaluation order are %r' % (who, f, got, sites)
+    for n, t, inner in ans['calls']:
+        if t in ('nosuch_inner', 'nosuch_inner+1', 'NOPEIN()', 'NOPEIN(2)*3', 'SUM(1,nosuch_inner,2)') and inner != NAME_REC:
+            return '%sinside %r the inner formula %r gives %r' % (who, f, t, inner)
+        if t in VARS_UNK and not (inner['error'] is None and inner['result'] is VARS_UNK[t]):
+            return '%sinside %r the inner formula %r gives %r' % (who, f, t, inner)
+    return None
+
+
 def oracle(c, impl_ans):
     k = c['kind']
     rec = impl_ans['rec']
     f = formula_of(c)
+    if k == 'sess':
+        msg = judge_sess(c, impl_ans)[0]
+        return None if msg is None else '%s: the last formula %s' % (describe_session(c), msg)
+    if k == 'reunk':
+        return reunk_oracle(c, impl_ans)
     if k == 'var':
         v = impl_ans['v']
         from hotxlfp.formulas import error
@@ -775,6 +1664,10 @@ def nontrivial(c, impl_ans):
     k = c['kind']
     if k == 'unk':
         return impl_ans['reached'] == 1
+    if k == 'reunk':
+        return impl_ans['reached'] == 1 and len(impl_ans['calls']) >= 1
+    if k == 'sess':
+        return judge_sess(c, impl_ans)[1]
     if k == 'fn':
         return len(impl_ans['calls']) >= 1
     return k != 'case'
